@@ -103,8 +103,12 @@ def to_dict(a, level=2, meta=None, resolve_ops=False) -> dict:
                 a = a + ap  # fill-in zero blocks
             except YastnError as e:
                 raise YastnError("Tensor is inconsistent with meta: " + str(e))
+            if a.trans != ap.trans:  # keep data in the native leg order declared by meta, including its pending transposition
+                inv = tuple(sorted(range(len(ap.trans)), key=ap.trans.__getitem__))
+                a = a.consume_transpose()._replace(mfs=((1,),) * a.ndim_n)
+                a = a.transpose(inv).consume_transpose()._replace(trans=ap.trans, mfs=ap.mfs)
             d = a.to_dict(level=level)
-            if not all(meta[k] == d[k] for k in ['type', 'dict_ver', 'config', 'struct', 'slices', 'isdiag', 'hfs', 'mfs']):
+            if not all(meta[k] == d[k] for k in ['type', 'dict_ver', 'config', 'struct', 'slices', 'trans', 'isdiag', 'hfs', 'mfs']):
                 raise YastnError("Tensor is inconsistent with meta.")
     return d
 
